@@ -155,7 +155,7 @@ func (t *TxWatcher) addTxWatcher(ctx context.Context, swapId string, txId string
 // the callback as soon as the tx is confirmed. The empty uint32 parameter is
 // due to the Watcher interface of swap expecting a signature with a vout
 // parameter.
-func (t *TxWatcher) AddWaitForConfirmationTx(swapId string, txId string, _ uint32, heightHint uint32, _ uint32, script []byte) {
+func (t *TxWatcher) AddWaitForConfirmationTx(swapId string, txId string, _ uint32, heightHint uint32, paymentWindow uint32, script []byte) {
 	t.Lock()
 	if _, ok := t.confirmationWatchers[swapId]; ok {
 		log.Debugf("[TxWatcher] Swap: %s: Tried to resubscribe to tx watcher for tx %s", swapId, txId)
@@ -211,13 +211,20 @@ func (t *TxWatcher) AddWaitForConfirmationTx(swapId string, txId string, _ uint3
 				// We add a +1 as the confirmation block height is the height of
 				// first confirmation.
 				confs := currentHeight - conf.blockHeight + 1
-				if confs >= onchain.BitcoinCsvSafetyLimit {
-					// We are already above half of the csv limit here, it is
-					// unsafe to pay for the invoice now.
-					// TODO: Check if this is handled correctly by the swap state
-					// machine.
-					log.Infof("[TxWatcher] Wait for confirmation on swap %s: Confirmations already above csv limit for tx %s", swapId, txId)
-					_ = t.csvPassedCallback(swapId)
+				windowClosed := paymentWindow != 0 &&
+					uint64(currentHeight) >= uint64(heightHint)+uint64(paymentWindow)
+				if confs >= onchain.BitcoinCsvSafetyLimit || windowClosed {
+					// We are already above half of the csv limit, or past the
+					// taker's payment window: it is unsafe to pay for the
+					// invoice now. Report a failure through the confirmation
+					// callback like the other watchers do; the swap that waits
+					// for a confirmation does not handle the csv callback.
+					log.Infof("[TxWatcher] Wait for confirmation on swap %s: payment window closed for tx %s", swapId, txId)
+					if t.confirmationCallback == nil {
+						log.Infof("[TxWatcher] Wait for confirmation on swap %s: confirmationCallback is nil", swapId)
+						return
+					}
+					_ = t.confirmationCallback(swapId, "", fmt.Errorf("exceeded csv limit"))
 					return
 				}
 
